@@ -1,6 +1,9 @@
 ----------------------------- MODULE LockRec13 -----------------------------
 (* C13: one record = one schedule / fault script replayed into real lockers; *)
-(* every recorded observation must satisfy the three C13 predicates.         *)
+(* every recorded observation must satisfy the three C13 predicates, and no  *)
+(* recorded non-lock modification reached the storage with a cancelled lock  *)
+(* context.                                                                  *)
 EXTENDS LockObs
-RecOK(r) == \A k \in 1..Len(r.obs) : HolderHasFile(r.obs[k]) /\ FreshWhileActive(r.obs[k]) /\ ReleasedClean(r.obs[k])
+RecOK(r) == /\ \A k \in 1..Len(r.obs) : HolderHasFile(r.obs[k]) /\ FreshWhileActive(r.obs[k]) /\ ReleasedClean(r.obs[k])
+            /\ NoWriteAfterCancel(r.mods)
 =============================================================================
